@@ -257,6 +257,8 @@ func TestSim(t *testing.T) {
 			var sc *Scenario
 			if role == "c19" && os.Getenv("SIM_FAMILY") == "twin" {
 				sc = TwinScenario(int(seed), mode)
+			} else if role == "c19" && os.Getenv("SIM_FAMILY") == "storm" {
+				sc = StormScenario(int(seed))
 			} else {
 				sc = Generate(seed, GenOptions{Property: prop, Mode: mode})
 			}
@@ -459,6 +461,10 @@ func TestSim(t *testing.T) {
 			}
 			if os.Getenv("SIM_FAMILY") == "twin" {
 				os.Stdout.Write(TwinScenario(int(seed), mode).Marshal())
+				continue
+			}
+			if os.Getenv("SIM_FAMILY") == "storm" {
+				os.Stdout.Write(StormScenario(int(seed)).Marshal())
 				continue
 			}
 			os.Stdout.Write(Generate(seed, GenOptions{Property: prop, Mode: mode}).Marshal())
